@@ -369,22 +369,27 @@ SHARED5 = (" Shared post-passes on every function this check analyses and on the
            "stored on the instance (R-ONESHOT), non-idempotent self-updates of constructor state decided exactly (R-SELFUPDATE), lists grown and consumed whole in the same "
            "loop without reset (R-ACCUM), caller options not handed on to a callee that takes the same option (R-FORWARD), files written by a callee whose result is changed "
            "before it is returned (R-SAVE-FWD), np.empty arrays read after partial stores only (R-UNINIT), result fields not stored on a return path (R-STATE-PATH), "
-           "pandas usecols order (R-LIBORDER), explicit falsy arguments replaced by defaults (R-FALSY).")
+           "a returning path that precedes the first write of the requested file (R-SAVE-PATH), pandas usecols order (R-LIBORDER), explicit falsy arguments replaced by defaults "
+           "(R-FALSY), values of a type-keyed dictionary used positionally (R-DICTORDER), loops over the number of distinct labels matched against the labels (R-LABELCOUNT), "
+           "numpy reduceat over possibly empty segments (R-REDUCEAT). Scope: functions this check analysed that lie in the property's anchor files, plus helpers introduced later; "
+           "C02 / C07 judge only the forwarding of the periodicity mask at their package-wide call sites; C18 runs the state / file rules over the whole package.")
 ADD5 = {
+    "C20": "A tessellation box built with the explicit constructor must take each edge from its own axis; a literal stride in the self term of the volume matrix is refuted for the other dimension.",
+    "C06": "A column that involves an array without an identified role (e.g. visit counts assigned in closed form) is undecided, never refuted.",
     "C02": "The witness search runs on a structured grid (orthogonal / weakly / strongly tilted cells of either tilt sign x all-short / mixed / multi-box displacements x every mask) so that fast paths and early exits are reached; options added to remove_pbc are analysed at their defaults and with the value callers pass; at every call site a displacement argument that is not a plain difference is evaluated on frames with particles outside the cell and must be a position difference modulo the PERIODIC lattice.",
     "C03": "The species-pair enumeration is repeated with unsigned (uint32) type ids, whose differences wrap (found G19).",
     "C04": "Normalisations written as loops over index tuples (itertools) with a helper are unrolled and decided like the unrolled statements.",
     "C05": "No narrowing float cast may lie on the way to the inclusive test d <= r_c.",
     "C08": "Table entries outside the polynomial grammar (e.g. cos written as sqrt(1 - sin^2)) get a 40-digit witness search in both hemispheres; the value returned by SphHarm_above, with the degree bound to 11, 12, 13, is evaluated with the library's harmonics at four angle pairs against [Y_lm, m = -l..l]; options added to the signatures are analysed at their defaults and reported as not analysed otherwise.",
-    "C09": "Bond angles in spellings outside the idiom table are evaluated on sample directions of every octant (witness only).",
-    "C10": "Weights normalised table-wide (every row at once) are decided: row sum of absolute values vs plain row sum.",
-    "C11": "Without a type-pair prefactor table, the scalar multiplying each block is read off the block store and evaluated on a concrete three-species frame for all ordered particle pairs.",
+    "C09": "Bond angles in spellings outside the idiom table are evaluated on sample directions of every octant (witness only); the coarse-graining step must start from the normalised local vectors that were appended for the frame; a thresholded count over a column slice that skips the first bond is refuted.",
+    "C10": "Weights normalised table-wide (every row at once, also in place) are decided: row sum of absolute values vs plain row sum vs absolute value of the row sum.",
+    "C11": "Without a type-pair prefactor table, the scalar multiplying each block is read off the block store and evaluated on a concrete three-species frame for all ordered particle pairs; an inline minimum image for the pair vector is decided by the shared machinery; frequencies are evaluated on spectra of very different magnitude; component loops of pair_matrix are unrolled per dimension.",
     "C13": "Cell volume and L_min terms are classified by evaluation on orthogonal and tilted cells (a term that is right for orthogonal cells only is a violation); the per-|q| grouping key must depend on the box; the q-component columns must hold the scaled wave vector.",
-    "C14": "The linear arm's loop nest is decided by enumerating the extracted bounds and index expressions for T = 1..6 (any loop order); the spacing test is also evaluated for small / large time units when it reads dt.",
+    "C14": "The linear arm's loop nest is decided by enumerating the extracted bounds and index expressions for T = 1..6 (any loop order); a single-origin arm written as one whole-array expression per frame is decided exactly on a symbolic series; the spacing test is also evaluated for small / large time units when it reads dt.",
     "C15": "The q-component columns the unit vector is read from are checked in conditional_sq.",
-    "C16": "The spatial-average accumulator must keep the input dtype (complex properties).",
+    "C16": "The spatial-average accumulator must keep the input dtype (complex properties); the window slice is evaluated for window lengths 1..8.",
     "C17": "Eigenvalues from eigvalsh and negative indices into the eigenvalue array are resolved per dimension.",
-    "C19": "GSD conversion rules accept loop, comprehension, enumerate and helper forms; DCD positions handed to the constructor must be cut to the dimension.",
+    "C19": "GSD conversion rules accept loop, comprehension, enumerate and helper forms; DCD positions handed to the constructor must be cut to the dimension; every alternative store of the column reader is decided (non-idiomatic values evaluated on concrete column-id lists); the writer's 2-D / 3-D layout may depend on the number of bound rows only.",
 }
 for _pid in CLAIMS:
     CLAIMS[_pid]["text"] += (" Also (session 5): " + ADD5[_pid] if _pid in ADD5 else "") + SHARED5
